@@ -241,19 +241,18 @@ func c15E2EFetch(s *verifh.Session, r *rand.Rand, c *Client, base string, how st
 		allowed, why = []string{b.body}, "unsupported Content-Type charset: body must be untouched"
 	default:
 		peekPath = true
+		// split_only_affects_meta_detection: the original, or the transcoding from the charset a scan of
+		// the WHOLE body selects (BOM first, else the first complete supported declaration) — a later,
+		// conflicting declaration is never a legitimate outcome, however the body was split
 		allowed = []string{b.body}
-		if _, e := c15ExpectedBOM(b.body); e != nil {
-			allowed = append(allowed, c15Transcode(e, b.body))
-		} else if !strings.HasPrefix(b.body, "\xef\xbb\xbf") {
-			for _, d := range b.decls {
-				if d.real {
-					if e := c15Lookup(d.label); e != nil {
-						allowed = append(allowed, c15Transcode(e, b.body))
-					}
-				}
+		if bn, e := c15ExpectedBOM(b.body); bn != "" {
+			if e != nil {
+				allowed = append(allowed, c15Transcode(e, b.body))
 			}
+		} else if e, _ := c15ExpectedPrescan(b, len(b.body)); e != nil {
+			allowed = append(allowed, c15Transcode(e, b.body))
 		}
-		why = "sniffing: original or the whole-body transcoding from a declared charset"
+		why = "sniffing: original or the whole-body transcoding from the charset the whole body declares first"
 	}
 	ok := err == nil && anomaly == "" && term == "eof" && c15In(string(got), allowed)
 	// The splitting of the body may decide whether a declaration is noticed — but a body of at most
